@@ -179,8 +179,13 @@ def global_cases(ctx):
         g = {k: v for k, v in g.items() if v}
         p = {k: v for k, v in p.items() if v}
         home = {".taskctl/config.yaml": json.dumps(g)} if g else {}
-        for argv, tag in ((["list"], "list"), (["--raw", "printvars", "ta", "tb"], "run")):
-            jobs.append({"id": len(jobs), "files": {"taskctl.yaml": json.dumps(p)}, "home": home, "argv": argv, "keep": ["out"], "where": where, "tag": tag, "mask": mask})
+        if g and mask % 2:          # the global file has imports of its own (relative to its directory), one of them nested
+            g["import"] = ["more/extra.yaml"]
+            home = {".taskctl/config.yaml": json.dumps(g), ".taskctl/more/extra.yaml": json.dumps({"import": ["deeper.yaml"], "tasks": {"tg": {"command": ['echo tg >> "$PROJ/out"']}}}),
+                    ".taskctl/more/deeper.yaml": json.dumps({"tasks": {"tgg": {"command": ['echo tgg >> "$PROJ/out"']}}})}
+        for argv, tag in ((["list"], "list"), (["--raw", "printvars", "ta", "tb"] + (["tg", "tgg"] if g.get("import") else []), "run")):
+            jobs.append({"id": len(jobs), "files": {"taskctl.yaml": json.dumps(p)}, "home": home, "argv": argv, "keep": ["out"], "where": where, "tag": tag, "mask": mask,
+                         "gimport": bool(g.get("import"))})
     return jobs
 
 
@@ -269,13 +274,13 @@ def run(ctx):
                 continue
             if j["tag"] == "list":
                 txt = r.get("out") or ""
-                missing = [it for it in ("ta", "tb", "ca", "cb") if ("- " + it) not in txt]
+                missing = [it for it in ("ta", "tb", "ca", "cb") + (("tg", "tgg") if "tg" in j["argv"] or j.get("gimport") else ()) if ("- " + it) not in txt]
                 if r["rc"] != 0 or missing:
                     res.violations.append({"class": None, "what": "a task or context defined in the global file or in the project file is not available (missing: %s)" % ",".join(missing),
                                            "case": case, "observed": {"rc": r["rc"], "out": txt[-600:], "err": (r.get("err") or "")[-300:]}})
             else:
                 lines = (r["files"].get("out") or "").split()
-                if r["rc"] != 0 or lines != ["VA-VB", "ta:ca", "tb:cb"]:
+                if r["rc"] != 0 or lines != ["VA-VB", "ta:ca", "tb:cb"] + (["tg", "tgg"] if j.get("gimport") else []):
                     res.violations.append({"class": None, "what": "variables / tasks of the global and project files are not all usable from the project",
                                            "case": case, "observed": {"rc": r["rc"], "out": lines, "err": (r.get("err") or "")[-400:]}})
     res.exhaustive = False
